@@ -46,7 +46,9 @@ type c19Map interface {
 	Range(f func(k string, v int) bool)
 }
 
-type c19CM struct{ m *gws.ConcurrentMap[string, int] }
+type c19CM struct {
+	m *gws.ConcurrentMap[string, int]
+}
 
 func (a c19CM) Load(k string) (int, bool)          { return a.m.Load(k) }
 func (a c19CM) Store(k string, v int)              { a.m.Store(k, v) }
@@ -316,14 +318,14 @@ type c19Spec struct {
 }
 
 type c19Op struct {
-	G        int    // goroutine
-	Kind     string // load store delete
-	Key      int
-	Val      int
-	Ok       bool
-	Call     int64
-	Ret      int64
-	Effect   int // +1 inserted a new key, -1 removed a present key (single-writer scenarios only)
+	G      int    // goroutine
+	Kind   string // load store delete
+	Key    int
+	Val    int
+	Ok     bool
+	Call   int64
+	Ret    int64
+	Effect int // +1 inserted a new key, -1 removed a present key (single-writer scenarios only)
 }
 
 func (o c19Op) String() string {
